@@ -10,6 +10,8 @@ import (
 	"bytes"
 	"context"
 	"fmt"
+	"image"
+	"image/color"
 	"math/rand"
 	"runtime"
 	"sort"
@@ -60,7 +62,15 @@ type Scn struct {
 	Cycles   int       `json:",omitempty"`
 	// kind "spinner": run | stop-posted | stopped | helpers | suspend | fullqueue
 	Spin string `json:",omitempty"`
-	Seed int64
+	// kind "suspend-fullqueue": the event queue is full (nobody reads it), the terminal sends Pre
+	// (paste | keys | focus | mouse), then the application suspends;
+	// Reader "none" | "late" (the application reads its events only after the Resume); End suspend-close |
+	// suspend-resume-close (more input follows the Resume)
+	Pre string `json:",omitempty"`
+	// kind "sixel-resize": the main goroutine has a sixel image re-encoded (the library does that in a
+	// goroutine of its own) and goes on rendering, Sixel times, while the terminal reports new sizes
+	Sixel int `json:",omitempty"`
+	Seed  int64
 }
 
 // QCaller is one goroutine that makes N rounds of the calls named by Kinds:
@@ -91,11 +101,12 @@ type Result struct {
 	RWant    []int    `json:"rwant"` // resize hand-off: the terminal's final size ...
 	RGot     []int    `json:"rgot"`  // ... and the size the library works with after the renders that follow
 	Queries  []QObs   `json:"queries"`
+	SLeaked  []string `json:"sleaked"` // goroutines started by the library still alive 1 s after a Suspend returned
 }
 
 func NewResult() *Result {
 	return &Result{Returned: true, Leaked: []string{}, Stuck: []string{}, Orders: [][]int{}, BSent: []int{}, BGot: []int{},
-		RWant: []int{}, RGot: []int{}, Queries: []QObs{}}
+		RWant: []int{}, RGot: []int{}, Queries: []QObs{}, SLeaked: []string{}}
 }
 
 type pev struct{ P, N int }
@@ -225,6 +236,153 @@ func waitLeaks(res *Result) {
 		}
 		time.Sleep(5 * time.Millisecond)
 	}
+}
+
+// suspendLeaks records the library's goroutines that are still there after a Suspend has returned (it
+// waits up to 1 s for them to go; a later Suspend of the same scenario does not hide what an earlier left).
+func suspendLeaks(res *Result) {
+	if !res.Returned || len(res.SLeaked) > 0 {
+		return
+	}
+	deadline := time.Now().Add(time.Second)
+	for {
+		l := libGoroutines(leakBase, nil)
+		if len(l) == 0 {
+			return
+		}
+		if time.Now().After(deadline) {
+			res.SLeaked = l
+			return
+		}
+		time.Sleep(5 * time.Millisecond)
+	}
+}
+
+// suspendFullQueue: the application is busy: its event queue is full and it does not read it. The
+// terminal sends input (the input goroutine has to post it), then the application suspends. Suspend has to
+// return and the library's goroutines have to be gone then; after a Resume more input arrives and the
+// application (Reader "late") gets round to its events; then it closes.
+func suspendFullQueue(sc *Scn, res *Result) *Result {
+	sess.ScrubEnv()
+	caps := responder.FromMask(sc.Mask, false)
+	con := fakecon.New(20, 5)
+	resp := responder.New(caps, 20, 5, con.Inject)
+	con.OnWrite = resp.OnWrite
+	vx, err := vaxis.New(vaxis.Options{WithConsole: con, NoSignals: true, EventQueueSize: sc.QSize})
+	if err != nil {
+		res.What = "start: " + err.Error()
+		return res
+	}
+	for i := 0; i < sc.QSize; i++ {
+		vx.PostEvent(pev{0, i + 1}) // dropped when the queue is full already
+	}
+	settle := func() { // the terminal's bytes have been read and handed on
+		for dl := time.Now().Add(300 * time.Millisecond); con.Pending() > 0 && time.Now().Before(dl); {
+			time.Sleep(time.Millisecond)
+		}
+		time.Sleep(10 * time.Millisecond)
+	}
+	pre := map[string]string{"paste": "\x1b[200~", "keys": "abc", "focus": "\x1b[I", "mouse": "\x1b[<0;2;2M\x1b[<0;2;2m"}[sc.Pre]
+	con.Inject([]byte(pre))
+	settle()
+	stopRead := make(chan struct{})
+	readerDone := make(chan struct{})
+	read := func() {
+		defer close(readerDone)
+		for {
+			select {
+			case ev := <-vx.Events():
+				if fn, ok := ev.(vaxis.SyncFunc); ok {
+					fn()
+				}
+			case <-stopRead:
+				return
+			}
+		}
+	}
+	if call("Suspend", func() { vx.Suspend() }, res) {
+		suspendLeaks(res)
+		switch sc.End {
+		case "suspend-resume-close":
+			if call("Resume", func() { vx.Resume() }, res) {
+				con.Inject([]byte("a\x1b[201~b"))
+				settle()
+				if sc.Reader == "late" {
+					go read()
+					time.Sleep(5 * time.Millisecond)
+				}
+				vx.Render()
+				call("Close", vx.Close, res)
+			}
+		default:
+			call("Close after Suspend", vx.Close, res)
+		}
+	}
+	select {
+	case <-readerDone:
+	default:
+		if sc.Reader == "late" && sc.End == "suspend-resume-close" && res.Returned {
+			close(stopRead)
+			<-readerDone
+		}
+	}
+	waitLeaks(res)
+	return res
+}
+
+// sixelResize: an application with a sixel image on a terminal that reports its size in band. The terminal
+// is resized; the application, on the Redraw it gets, has the image fitted again (Sixel.Resize: the library
+// encodes in a goroutine it starts) and renders. The library's goroutine runs beside the frames.
+func sixelResize(sc *Scn, res *Result) *Result {
+	sess.ScrubEnv()
+	caps := responder.FromMask(sc.Mask|1<<3|1<<6, false)
+	con := fakecon.New(20, 5)
+	resp := responder.New(caps, 20, 5, con.Inject)
+	resp.XPix, resp.YPix = 200, 100
+	con.OnWrite = resp.OnWrite
+	vx, err := vaxis.New(vaxis.Options{WithConsole: con, NoSignals: true, EventQueueSize: 1024})
+	if err != nil {
+		res.What = "start: " + err.Error()
+		return res
+	}
+	img := image.NewRGBA(image.Rect(0, 0, 48, 48))
+	for i := 0; i < 48; i++ {
+		img.Set(i, i, color.RGBA{255, 0, 0, 255})
+		img.Set(i, 47-i, color.RGBA{0, 0, 255, 255})
+	}
+	sx := vx.NewSixel(img)
+	redraw := func() { // the application's loop: until the Redraw of the size change (at most 300 ms)
+		t := time.After(300 * time.Millisecond)
+		for {
+			select {
+			case ev := <-vx.Events():
+				switch ev := ev.(type) {
+				case vaxis.SyncFunc:
+					ev()
+				case vaxis.Redraw:
+					return
+				}
+			case <-t:
+				return
+			}
+		}
+	}
+	for i := 0; i < sc.Sixel; i++ {
+		cols, rows := 20+i%2, 5+i%2
+		con.SetSize(cols, rows)
+		con.Inject([]byte(fmt.Sprintf("\x1b[48;%d;%d;%d;%dt", rows, cols, rows*20, cols*10+i%3)))
+		redraw()
+		if i > 0 {
+			sx.Resize(4, 2)
+		}
+		vx.Render()
+		sx.Draw(vx.Window())
+		vx.Render()
+	}
+	time.Sleep(20 * time.Millisecond)
+	call("Close", vx.Close, res)
+	waitLeaks(res)
+	return res
 }
 
 func isQueryReply(b []byte) bool {
@@ -604,6 +762,12 @@ func Execute(sc *Scn) *Result {
 	if sc.Spin != "" {
 		return spinnerRun(sc, res)
 	}
+	if sc.Pre != "" {
+		return suspendFullQueue(sc, res)
+	}
+	if sc.Sixel > 0 {
+		return sixelResize(sc, res)
+	}
 	rng := rand.New(rand.NewSource(sc.Seed))
 	sess.ScrubEnv()
 	caps := responder.FromMask(sc.Mask, false)
@@ -772,12 +936,14 @@ func Execute(sc *Scn) *Result {
 		}
 	case "suspend-close":
 		if call("Suspend", func() { vx.Suspend() }, res) {
+			suspendLeaks(res)
 			open.Store(false)
 			call("Close after Suspend", vx.Close, res)
 		}
 	case "suspend-resume-close":
 		ok := call("Suspend", func() { vx.Suspend() }, res)
 		if ok {
+			suspendLeaks(res)
 			ok = call("Resume", func() { vx.Resume() }, res)
 		}
 		if ok {
@@ -885,6 +1051,13 @@ func GenQuery(rng *rand.Rand) *Scn {
 	return sc
 }
 
+// GenSuspend draws one "suspend-fullqueue" scenario.
+func GenSuspend(rng *rand.Rand) *Scn {
+	return &Scn{Kind: "suspend-fullqueue", Mask: rng.Intn(1 << 15), QSize: []int{1, 1, 2, 4}[rng.Intn(4)],
+		Pre: []string{"paste", "keys", "focus", "mouse"}[rng.Intn(4)], Reader: []string{"none", "late"}[rng.Intn(2)],
+		End: []string{"suspend-close", "suspend-resume-close"}[rng.Intn(2)], Seed: rng.Int63()}
+}
+
 // GenSpin draws one "spinner" scenario.
 func GenSpin(rng *rand.Rand) *Scn {
 	return &Scn{Kind: "spinner", Mask: rng.Intn(1 << 15), Spin: []string{"run", "stop-posted", "stopped", "helpers", "suspend", "fullqueue"}[rng.Intn(6)], Seed: rng.Int63()}
@@ -917,6 +1090,15 @@ func Fixed() []*Scn {
 		{Kind: "resize-handoff", Resizes: 2, Seed: 42},
 		{Kind: "resize-handoff", Resizes: 3, Mask: 1 | 1<<1, Seed: 43},
 		{Kind: "resize-handoff", Resizes: 4, Mask: 1<<8 | 1<<9, Seed: 44},
+		// the sixel encoder goroutine beside frames that take a new size over
+		{Kind: "sixel-resize", Sixel: 30, Seed: 61},
+		{Kind: "sixel-resize", Sixel: 30, Mask: 1<<15 - 1, Seed: 62},
+		// Suspend while the input goroutine is posting to a full queue
+		{Kind: "suspend-fullqueue", QSize: 1, Pre: "paste", Reader: "none", End: "suspend-close", Seed: 51},
+		{Kind: "suspend-fullqueue", QSize: 2, Pre: "keys", Reader: "none", End: "suspend-close", Seed: 52},
+		{Kind: "suspend-fullqueue", QSize: 1, Pre: "paste", Reader: "late", End: "suspend-resume-close", Seed: 53},
+		{Kind: "suspend-fullqueue", QSize: 4, Pre: "mouse", Reader: "none", End: "suspend-resume-close", Seed: 54},
+		{Kind: "suspend-fullqueue", QSize: 1, Pre: "focus", Reader: "late", End: "suspend-resume-close", Mask: 1<<15 - 1, Seed: 55},
 		{Kind: "flood-then-close", QSize: 2, Keys: 10, Chunk: 10, Reader: "none", End: "close", Seed: 1},
 		{Kind: "flood-then-close", QSize: 1, Keys: 40, Chunk: 3, Reader: "none", End: "close", Seed: 2},
 		{Kind: "flood-then-suspend", QSize: 2, Keys: 10, Chunk: 10, Reader: "none", End: "suspend-close", Seed: 3},
